@@ -92,6 +92,12 @@ def run(name, tier):
     assert out.strip() == "", "/repo is not clean: " + out
     t0 = time.time()
     res = dict(name=name, property=prop, tier=tier)
+    # evidence files and regenerated Lean definitions written while the tree is changed do not describe /repo:
+    # keep the current ones aside and put them back afterwards
+    keep = os.path.join(ROOT, "work", ".seeded-keep")
+    shutil.rmtree(keep, ignore_errors=True)
+    for sub in ("evidence", os.path.join("lean", "Generated")):
+        shutil.copytree(os.path.join(ROOT, sub), os.path.join(keep, sub))
     try:
         rc, out = sh("git -C %s apply %s" % (REPO, os.path.join(d, "patch.diff")))
         if rc != 0:
@@ -115,6 +121,15 @@ def run(name, tier):
         # evidence and replays written while the tree was changed do not describe /repo: drop the replays
         for f in glob.glob(os.path.join(ROOT, "replays", "*.json")):
             os.remove(f)
+        for sub in ("evidence", os.path.join("lean", "Generated")):
+            for dp, dn, fn in os.walk(os.path.join(keep, sub)):
+                for f in fn:
+                    src = os.path.join(dp, f)
+                    dst = os.path.join(ROOT, os.path.relpath(src, keep))
+                    if not os.path.exists(dst) or open(src, "rb").read() != open(dst, "rb").read():
+                        os.makedirs(os.path.dirname(dst), exist_ok=True)
+                        shutil.copy(src, dst)
+        shutil.rmtree(keep, ignore_errors=True)
     res["wall_s"] = round(time.time() - t0, 1)
     json.dump(res, open(os.path.join(d, "result_%s.json" % tier), "w"), indent=1)
     return res
